@@ -94,6 +94,7 @@ type Interp struct {
 	extra     map[string]interface{}
 	syncHook  func(op string, mu value)
 	panics    []*panicState
+	fullRange bool
 	errStack  []string
 	errWhere  string
 }
@@ -480,7 +481,7 @@ func (in *Interp) global(g *ssa.Global) *value {
 
 var skipInit = map[string]bool{"errors": true, "strings": true, "bytes": true, "sort": true, "strconv": true, "math": true, "math/bits": true,
 	"slices": true, "cmp": true, "github.com/pkg/errors": true, "internal/bytealg": true, "internal/stringslite": true, "internal/itoa": true,
-	"encoding/binary": true, "unicode/utf8": true, "unicode/utf16": true, "container/list": true}
+	"encoding/binary": true, "github.com/go-jose/go-jose/v3/json": true, "github.com/go-jose/go-jose/v3/cipher": true, "unicode/utf8": true, "unicode/utf16": true, "container/list": true}
 
 // ensureInit runs the package initialiser of executed packages (once per path).
 func (in *Interp) ensureInit(p *ssa.Package) {
